@@ -195,7 +195,7 @@ func (x *Exec) VerifyFamily(fn *ssa.Function) (rep *FuncReport) {
 					if os.Getenv("GOWP_DEBUG") != "" {
 						msg += "\n" + string(debug.Stack())
 					}
-					if partial && (strings.Contains(msg, "of kind ") || strings.Contains(msg, "kind of") && strings.Contains(msg, "not determined") || strings.Contains(msg, "no closure clause of")) {
+					if partial && (strings.Contains(msg, "of kind ") || strings.Contains(msg, "kind of") && strings.Contains(msg, "not determined") || strings.Contains(msg, "no closure clause of") || strings.Contains(msg, "not a func(*Env) K value") || strings.Contains(msg, "cannot use literal as")) {
 						// the contract says it covers the 17 basic kinds only: closures for other
 						// kinds are not under contract (counted and reported, never claimed)
 						rep.Uncovered = append(rep.Uncovered, sig+": "+msg)
@@ -499,6 +499,7 @@ func (x *Exec) checkClosure(sp *spec.FuncSpec, s *closureSite, sig string) {
 	var exprC, stmtC, jumpC, modC *spec.Clause
 	exprVoid := false
 	var reqs, invs, ensC []*spec.Clause
+	var panC *spec.Clause
 	for _, c := range sp.Of("closure") {
 		w := strings.Fields(c.Text)
 		if len(w) == 0 {
@@ -565,6 +566,10 @@ func (x *Exec) checkClosure(sp *spec.FuncSpec, s *closureSite, sig string) {
 			reqs = append(reqs, c)
 		case "loop":
 			invs = append(invs, c)
+		case "panics":
+			// "panics if C": the closure panics exactly when C holds (C is evaluated like the
+			// contract expression, on a copy of the state the closure starts from)
+			panC = c
 		}
 	}
 	if exprC == nil && stmtC == nil && jumpC == nil && modC == nil {
@@ -707,6 +712,35 @@ func (x *Exec) checkClosure(sp *spec.FuncSpec, s *closureSite, sig string) {
 		alt = x.evalStmtSpec(specFrame, fe, stmtC, specSt, s.st)
 		specRes = alt.results
 	}
+	// the panic condition, on its own copy of the initial state (its operand calls are then the same
+	// terms as the first calls of the closure and of the contract expression)
+	var panicCond *smt.Term
+	if panC != nil {
+		txt := strings.TrimSpace(strings.TrimPrefix(strings.TrimSpace(panC.Text), "panics"))
+		txt = strings.TrimSpace(strings.TrimPrefix(txt, "if"))
+		applies := true
+		if k := strings.LastIndex(txt, " if "); k >= 0 {
+			// "panics if C if G": only on creation paths where G holds
+			ge, err := spec.ParseExpr(txt[k+4:])
+			if err != nil {
+				x.NoObl--
+				specErr("%v", err)
+			}
+			g := x.simplifyUnder(s.st.PC, s.frame.evalBool(ge, s.st, s.st))
+			applies = g.IsTrue() || (!g.IsFalse() && x.entailed(x.dropQuantified(s.st.PC), g))
+			txt = txt[:k]
+		}
+		if applies {
+			pe, err := spec.ParseExpr(txt)
+			if err != nil {
+				x.NoObl--
+				specErr("%v", err)
+			}
+			fe.memo = map[string]TV{}
+			panicCond = specFrame.evalBool(pe, run.clone(), s.st)
+			fe.memo = map[string]TV{}
+		}
+	}
 	x.NoObl--
 	// 2. the closure itself
 	x.famSafety = sp.Flags["safety"]
@@ -808,6 +842,10 @@ func (x *Exec) checkClosure(sp *spec.FuncSpec, s *closureSite, sig string) {
 		if len(frameSub) > 0 {
 			goal = B.Subst(goal, frameSub)
 		}
+		if panicCond != nil {
+			// a normal return means the panic condition did not hold
+			goal = B.And(goal, B.Not(panicCond))
+		}
 		goal = x.simplifyUnder(r.st.PC, goal)
 		ob := x.oblige("closure", clauseText, where, r.st, goal)
 		if ob != nil && len(frameSub) > 0 {
@@ -823,6 +861,10 @@ func (x *Exec) checkClosure(sp *spec.FuncSpec, s *closureSite, sig string) {
 	// paths other than those of the Go operators it uses, which the closure shares when it computes
 	// the same terms; explicit panics inside closures are reported
 	for _, p := range res.Panics {
+		if panicCond != nil {
+			x.oblige("closure-panic", panC.Text, p.where, p.st, x.simplifyUnder(p.st.PC, panicCond))
+			continue
+		}
 		x.oblige("closure-no-extra-panic", "explicit panic in a closure body", p.where, p.st, B.False())
 	}
 }
